@@ -103,8 +103,12 @@ func (f *FieldUpdater) Merge(dst, src proto.Message) {
 	nestedMask.Filter(src)
 	proto.Merge(dst, src)
 
-	// if a field mentioned by the mask is nil, we should clear it
-	pruneEmpty(dst, src, nestedMask)
+	// if a field mentioned by the mask is nil, we should clear it, as far as it is writable
+	clearMask := nestedMask
+	if writableMask != nil {
+		clearMask = intersectMasks(nestedMask, writableMask)
+	}
+	pruneEmpty(dst, src, clearMask)
 
 	if f.resetMask != nil {
 		fmutils.Prune(dst, normalPaths(f.resetMask.Paths))
@@ -120,6 +124,28 @@ func normalPaths(paths []string) []string {
 	mask := &fieldmaskpb.FieldMask{Paths: append([]string(nil), paths...)}
 	mask.Normalize()
 	return mask.Paths
+}
+
+// intersectMasks returns the mask of what both a and b select.
+// A name without anything below it selects the whole field, so the other mask decides what is selected of it.
+func intersectMasks(a, b fmutils.NestedMask) fmutils.NestedMask {
+	res := make(fmutils.NestedMask)
+	for name, am := range a {
+		bm, ok := b[name]
+		switch {
+		case !ok:
+			// not selected by b
+		case len(am) == 0:
+			res[name] = bm
+		case len(bm) == 0:
+			res[name] = am
+		default:
+			if m := intersectMasks(am, bm); len(m) > 0 {
+				res[name] = m
+			}
+		}
+	}
+	return res
 }
 
 func pruneEmpty(dst, src proto.Message, mask fmutils.NestedMask) {
